@@ -1022,7 +1022,7 @@ func (r *deadlineResetReader) Read(p []byte) (n int, err error) {
 
 func (c *wsConn) resetReadDeadline() {
 	if c.timeout > 0 {
-		vhook("deadline.reset", c)
+		vhook("deadline.reset", c, int64(c.timeout))
 		if err := c.conn.SetReadDeadline(time.Now().Add(c.timeout)); err != nil {
 			log.Error("setting read deadline", err)
 		}
